@@ -17,6 +17,7 @@ import (
 	"sort"
 	"strings"
 	"sync"
+	"sync/atomic"
 
 	osig "github.com/ontio/ontology-crypto/signature"
 	"github.com/ontio/ontology/common"
@@ -222,8 +223,12 @@ func (o outcome) accepted() bool {
 	return o.decodeErr == nil && o.panicked == nil && o.code == ontErrors.ErrNoError
 }
 
+// run verifies the bytes twice: on a freshly decoded object, and on a second freshly decoded object
+// whose signer list was queried first (tx.GetSignatureAddresses, as the transaction pool does on the
+// very object it then hands to the validator).  The verdict must not depend on that query: the more
+// permissive of the two outcomes is what an attacker gets, so it is the one reported.
 func run(raw []byte) outcome {
-	var o outcome
+	var o, t outcome
 	cp := append([]byte{}, raw...)
 	o.panicked = vf.Catch(func() {
 		o.tx, o.decodeErr = types.TransactionFromRawBytes(cp)
@@ -231,8 +236,27 @@ func run(raw []byte) outcome {
 			o.code = validation.VerifyTransaction(o.tx)
 		}
 	})
+	if o.decodeErr != nil {
+		return o
+	}
+	cp2 := append([]byte{}, raw...)
+	t.panicked = vf.Catch(func() {
+		t.tx, t.decodeErr = types.TransactionFromRawBytes(cp2)
+		if t.decodeErr == nil {
+			vf.Catch(func() { t.tx.GetSignatureAddresses() })
+			t.code = validation.VerifyTransaction(t.tx)
+		}
+	})
+	if t.accepted() != o.accepted() {
+		verdictDependsOnSignerQuery.Add(1)
+	}
+	if t.panicked != nil && o.panicked == nil || t.accepted() && !o.accepted() {
+		return t
+	}
 	return o
 }
+
+var verdictDependsOnSignerQuery atomic.Int64
 
 type monitor struct {
 	r    *vf.Run
@@ -975,6 +999,7 @@ func main() {
 		"multisig_form_with_one_key_accepted":   r.Counter("observed/multisig-form-with-one-key/accepted"),
 		"signature_section_flip_still_accepted": r.Counter("observed/flip-signature-section/accepted"),
 	})
+	r.Add("verdict_depends_on_signer_query_before_validation", verdictDependsOnSignerQuery.Load())
 	r.Assume("ontology-crypto's signature.Verify is the definition of 'a signature verifies' (oracle b re-uses it; it is not part of /repo)")
 	r.Assume("signature sets carry exactly m signatures (DESIGN domain note): surplus signatures and scripts listing one key twice are observed, not judged")
 	r.Assume("EIP-155 (Ethereum-format) transactions are outside this property: their signature is checked at decode")
